@@ -4,7 +4,7 @@ import vlib
 from vlib import Result, log
 from arena import Arena
 
-THEOREMS = ["C03_segment_roundtrip", "C03_segment_stays_one", "C03_layout_exploded", "C03_layout_joined", "C03_layout_absent", "C03_explode_default_from_source",
+THEOREMS = ["C03_param_merge_spec", "C03_param_merge_unique", "C03_param_op_level_wins", "C03_param_item_level_overridden", "C03_param_merge_from_source", "C03_param_merge_nonvacuous", "C03_segment_roundtrip", "C03_segment_stays_one", "C03_layout_exploded", "C03_layout_joined", "C03_layout_absent", "C03_explode_default_from_source",
             "C03_joined_ambiguous_refuted", "C03_nonvacuous"]
 TARGETS = ["Props/C03.v", "Extract/C03.v"]
 
@@ -222,6 +222,8 @@ def field_name(param):
 
 
 def rust_string(s):
+    if not isinstance(s, str):
+        raise ValueError(f"the member is a string but the declared parameter's value is {s!r}: the emitted member type does not follow the declaration")
     b = s.encode("utf-8")
     return "String::from_utf8(vec![" + ", ".join(f"{x}u8" for x in b) + "]).unwrap()"
 
@@ -338,6 +340,79 @@ fn capture_server() -> (u16, std::sync::mpsc::Receiver<Vec<u8>>) {
 '''
 
 
+# ---------------------------------------------------------------- parameter declarations: path item vs operation
+
+PM_TYPES = [("string", "String"), ("integer", "i64"), ("boolean", "bool"), ("number", "f64")]
+
+
+def param_merge_part(exe, rnd, n, viol, dis):
+    """random path-item / operation-level parameter lists (overlapping names and locations, different schemas): the members
+    of the emitted query / header / path structs, in order, with their types, against the extracted collect_parameters"""
+    d = vlib.scratch("C03m")
+    cases = []
+    for k in range(n):
+        names = ["a", "b", "c", "d"]
+        def plist(kmax):
+            out, seen = [], set()
+            for _ in range(rnd.randint(0, kmax)):
+                loc = rnd.choice(["query", "query", "header", "path"])
+                nm = rnd.choice(["x", "y"] if loc == "path" else names)
+                if (loc, nm) in seen:
+                    continue
+                seen.add((loc, nm))
+                out.append((loc, nm, rnd.randrange(len(PM_TYPES))))
+            return out
+        item, ops = plist(4), plist(5)
+        # both template variables are declared somewhere
+        for v in ("x", "y"):
+            if not any(l == "path" and nm == v for l, nm, _ in item + ops):
+                (item if rnd.random() < 0.5 else ops).append(("path", v, rnd.randrange(len(PM_TYPES))))
+        cases.append((item, ops))
+    mk = lambda l, nm, t: {"name": nm if l != "header" else "X-" + nm.upper(), "in": l, "required": l == "path", "schema": {"type": PM_TYPES[t][0]}}
+
+    def one(k):
+        item, ops = cases[k]
+        spec = {"openapi": "3.1.0", "info": {"title": "t", "version": "1"}, "paths": {"/m/{x}/{y}": {
+            "parameters": [mk(*p) for p in item], "get": {"operationId": "fetch_merged", "parameters": [mk(*p) for p in ops], "responses": {"204": {"description": "n"}}},
+            "delete": {"operationId": "drop_plain", "responses": {"204": {"description": "n"}}}}}, "components": {"schemas": {}}}
+        sp = os.path.join(d, f"s{k}.json")
+        json.dump(spec, open(sp, "w"))
+        out = os.path.join(d, f"o{k}.rs")
+        rc, txt = vlib.oas(["generate", "types", "-i", sp, "-o", out, "-q"], timeout=60)
+        return rc, txt[-200:], out
+    outs = vlib.pmap(one, range(n))
+    dumps = vlib.vtool_lines("dump", [o[2] for o in outs])
+    loc_code = {"path": 1, "query": 2, "header": 3}
+    ids, queries = [], []
+    for item, ops in cases:
+        table = {}
+        def tok(p):
+            table[len(table) + 1] = p
+            return f"{loc_code[p[0]]}:{p[1]}:{len(table)}"
+        queries.append("params " + " ".join(tok(p) for p in item) + " // " + " ".join(tok(p) for p in ops))
+        ids.append(table)
+    model = vlib.run_driver(exe, queries) if exe else []
+    n_cmp = 0
+    for k, ((item, ops), (rc, txt, _), dump) in enumerate(zip(cases, outs, dumps)):
+        if rc != 0 or "error" in dump:
+            viol.append((("param-merge", item, ops), f"parameter lists item={item} operation={ops}: generation failed rc={rc} {txt}", None))
+            continue
+        structs = {x["name"]: [(f["name"], f["ty"].replace(" ", "")) for f in x.get("fields", [])] for x in dump["items"] if x["kind"] == "struct"}
+        if k >= len(model) or not model[k].startswith("C"):
+            dis.append(f"param-merge: model answer {model[k] if k < len(model) else None!r}")
+            continue
+        want = [ids[k][int(t)] for t in model[k].split()[1:]]
+        n_cmp += 1
+        for loc, sname in (("path", "FetchMergedRequestPath"), ("query", "FetchMergedRequestQuery"), ("header", "FetchMergedRequestHeader")):
+            exp = [((nm if loc != "header" else "x_" + nm), PM_TYPES[t][1] if loc == "path" else f"Option<{PM_TYPES[t][1]}>") for (l, nm, t) in want if l == loc]
+            got = structs.get(sname, [])
+            if got != exp:
+                msg = f"parameter lists item={item} operation={ops}: {sname} has the members {got}, the operation's {loc} parameters are {exp} (operation level replaces the path item's)"
+                viol.append((("param-merge", item, ops), msg, None))
+                break
+    return n_cmp
+
+
 def main(tier, seed, replay=None):
     res = Result("C03", tier, seed)
     vlib.build_repo()
@@ -345,14 +420,17 @@ def main(tier, seed, replay=None):
     rep = vlib.translate()
     r = rep.get("Params.v", {"ok": False, "error": "missing"})
     res.oblige("translator: Gen/Params.v regenerated from current source", r.get("ok"), r.get("error", ""))
-    coq_ok, out = vlib.standard_coq_obligations(res, TARGETS, THEOREMS, expect_closed=4)
+    coq_ok, out = vlib.standard_coq_obligations(res, TARGETS, THEOREMS, expect_closed=8)
     exe = vlib.ocaml_build("c03")
     res.oblige("extracted model (pct_decode, enc_segment, layout, split) builds", exe is not None)
+    pm_viol, pm_dis = [], []
+    n_pm = param_merge_part(exe, random.Random(f"c03m-{seed}"), 60 if tier == "quick" else 600, pm_viol, pm_dis) if exe else 0
+    res.oblige(f"correspondence: members of the request's path / query / header structs = extracted collect_parameters on {n_pm} random path-item / operation parameter lists", not pm_dis and not pm_viol, "; ".join(pm_dis[:2] + [v[1] for v in pm_viol[:1]]))
     d = vlib.scratch("C03")
     spec = feature_spec()
     sp = os.path.join(d, "spec.json")
     json.dump(spec, open(sp, "w"))
-    viol = []
+    viol = list(pm_viol)
     variants = [("base", BASE_PATH), ("base-slash", BASE_PATH + "/"), ("root", "")]
     outp = os.path.join(d, "out")
     rc, txt = vlib.oas(["generate", "client-mod", "-i", sp, "-o", outp, "-q"], timeout=120)
@@ -448,12 +526,12 @@ def main(tier, seed, replay=None):
             for (dsc, cls) in problems:
                 viol.append((pr[k], f"{opid} [{vn}] with {json.dumps(vals, ensure_ascii=False)[:120]}: {dsc}", cls))
     res.counts.update({"evaluations": len(blocks), "distinct_nontrivial": n_obs, "comparisons": n_obs, "traces_validated_against_impl": n_obs,
-                       "operations": len(ops), "probes": len(pr),
+                       "operations": len(ops), "probes": len(pr), "param_merge_cases": n_pm,
                        "rule": "one feature spec (methods GET/PUT/POST/DELETE/PATCH/HEAD/OPTIONS; plain, single, multiple and mixed literal/parameter templates; path-item and operation parameters with override; scalar / enum / array parameters with form (explode and not), spaceDelimited, pipeDelimited; string / integer / boolean / array headers; json, optional json, form, text, binary, multipart bodies) generated as client-mod, compiled, and every probe (reserved URL characters, non-ASCII, dot segments, empty arrays, boundary integers) plus seeded random probes (60 quick / 1500 thorough: texts over the reserved, quoting and non-ASCII alphabet in every path, query, header, array-item and body position, boundary and random integers, random bytes) sent through the generated method to a capturing TCP server; the raw request is judged: method, path segments (literals equal, parameter segments percent-decode — with the extracted Coq decoder — to the value and contain no / ? #), query pairs as a multiset against the extracted layout model, headers, body per media type; base URL with and without trailing slash and at the root"})
     for p in pr[:4]:
         res.sample({"operation": p[0], "values": p[1]})
     res.cov["trusted_base"] = vlib.COMMON_TRUSTED + [
-        "coq/Model/Wire.v: percent-decoding (the oracle applied to captured path segments), a model of the PATH_SEGMENT encode set, and the array layout rules",
+        "coq/Model/ParamMerge.v: hand model of collect_parameters (shape pinned by Gen/Params.v)", "coq/Model/Wire.v: percent-decoding (the oracle applied to captured path segments), a model of the PATH_SEGMENT encode set, and the array layout rules",
         "lib/c03.py: construction of request values from the emitted types, the capturing TCP server (tools/arena runner), parsing of the raw request (python urllib for query / form decoding, a small multipart parser)",
         "reqwest / url / serde_urlencoded / http as they run in the arena"]
     res.assumptions = ["PARTIAL: the theorems are about the encodings; that the generated method produces them is observed on the probes, through real sockets on the loopback interface",
